@@ -563,6 +563,27 @@ func init() {
 					{Op: "notify", Sel: "put", N: 1, VB: 2}, {Op: "waitcycles", N: 1, Ms: 5000}, {Op: "quiet", Ms: 1500}, {Op: "barrier"}, {Op: "commit"}}
 				out = append(out, drv.Scenario{Kind: "save-across-close", Seed: seed, Params: mustJSON(sp), TimeoutS: 120, Solo: true})
 			}
+			// the application calls Commit() inside the closed window of a rebalance (after the close, inside the delay, while the
+			// reopen is held): nothing to save there, and certainly nothing that stops the client
+			cr := rand.New(rand.NewSource(seed*23 + 17))
+			for j := 0; j < n/25; j++ {
+				sp := &SessSpec{NumVB: 2 + cr.Intn(4), Nodes: 1, AckSeed: cr.Int63(), Backend: []string{"mem", "file", "cb"}[j%3], Backlog: map[int][][]ItemSpec{}, Membership: "kubernetesHa",
+					RebalanceDelayMs: 150 + cr.Intn(100), FirstInfo: [2]int{1, 1}, PNow: 1}
+				o := &HistOpts{NumVB: sp.NumVB, PSystem: 0.04, PSeqAdv: 0.1, MaxItems: 4}
+				ctr := 0
+				for vb := 0; vb < sp.NumVB; vb++ {
+					sp.Backlog[vb] = append(sp.Backlog[vb], genSnap(cr, o, &ctr))
+				}
+				h := []string{"ASS", "BRE", ""}[j%3]
+				sp.Steps = []Step{{Op: "barrier"}, {Op: "commit"}}
+				if h != "" {
+					sp.Steps = append(sp.Steps, Step{Op: "holdeh", Sel: h}, Step{Op: "notify", Sel: "put", N: 1, VB: 2, Ms: 1}, Step{Op: "waitheld", Sel: h}, Step{Op: "commit"}, Step{Op: "releaseeh"})
+				} else {
+					sp.Steps = append(sp.Steps, Step{Op: "notify", Sel: "put", N: 1, VB: 2}, Step{Op: "waiteh", Sel: "ASS"}, Step{Op: "sleep", Ms: 40}, Step{Op: "commit"})
+				}
+				sp.Steps = append(sp.Steps, Step{Op: "waitcycles", N: 1, Ms: 5000}, Step{Op: "quiet", Ms: 800}, Step{Op: "barrier"}, Step{Op: "commit"})
+				out = append(out, drv.Scenario{Kind: "commit-in-window", Seed: seed, Params: mustJSON(sp), TimeoutS: 120, Solo: true})
+			}
 			nd := 12
 			if tier == "thorough" {
 				nd = 120
